@@ -424,6 +424,22 @@ def loader(ctx):
                 ctx.violation(f"loader:{form}:differs-from-json", f"{arg!r}: arrays differ from the JSON file", case)
             if not (c.ndim == 1 and c.shape == a.shape and len(a) > 0 and np.all(a > 0) and np.all(np.isfinite(c))):
                 ctx.violation("loader:malformed-parameter-set", f"{arg!r}: shapes {c.shape}/{a.shape}, min alpha {a.min() if len(a) else None}", case)
+            # history: the caller edits the arrays it was handed (normalises the coefficients, takes logarithms of the exponents
+            # in place), then loads again -- by any spelling: the shipped set again (added after seeded change C17-I: the loader
+            # handed out its own cached arrays)
+            ctx.count(section="loader")
+            try:
+                c /= c.sum() if c.sum() != 0 else 1.0
+                np.log(a, out=a)
+                for form2, arg2 in (("int", z), ("symbol", sym), ("np.int64", np.int64(z))):
+                    c2, a2 = cou.load_atomic_gaussian_params(arg2)
+                    if not (np.array_equal(c2, rc) and np.array_equal(a2, ra)):
+                        ctx.violation("loader:history:second-load-after-edit-differs-from-json", f"{arg!r}: after the arrays of the first load were "
+                                      f"edited in place, loading {arg2!r} gives exponent[0] = {a2[0]!r}, the file has {ra[0]!r}",
+                                      dict(case, history="load, edit returned arrays in place, load"))
+                        break
+            except Exception as exc:
+                ctx.violation(f"loader:history:raised:{type(exc).__name__}", f"{arg!r}: editing the returned arrays / loading again raised {exc}", case)
     for badarg in ("Xx", "", 0, 119, -1):
         ctx.count(section="loader")
         try:
